@@ -43,6 +43,13 @@ pub fn tick(a: u64, b: u64) {
     s.active.store(true, Ordering::Relaxed);
 }
 
+/// Mark progress inside a long work item (one real call returned).
+#[inline]
+pub fn pulse() {
+    let t = WID.with(|w| w.get());
+    SLOTS[t].tick.fetch_add(1, Ordering::Relaxed);
+}
+
 pub fn clear(t: usize) {
     SLOTS[t.min(MAX_WORKERS - 1)].active.store(false, Ordering::Relaxed);
 }
